@@ -29,6 +29,8 @@
                         every depth, each the table's entry of its key;
      `run_package_truthful`  `run_tests` on such a package: every block once, in
                         sorted key order, `Ok` iff every declared verdict is accept.
+                        (T1 for tables that also hold compiler-generated glue —
+                        `::generated::eq_…/clone_…/drop_…`, any entries whose keys have no `#`.)
   T3 `no_shadow_*`      `fn x`/`test x` occupy different keys (coexist); a module
                         declares without error iff its keys are distinct, two
                         tests (or two functions) of one name are an error; no
@@ -420,7 +422,9 @@ example :
     order the hash map `Module.functions` enumerates its keys in: the keys
     `get_tests` turns into test cases are exactly the test blocks of all
     modules, each once (`Perm`), and the list EQUALS the sorted list of those
-    keys — so the order depends on the names only. -/
+    keys — so the order depends on the names only.  The table may hold any further
+    entries whose keys contain no `#` (`glue`: the compiler-generated `::generated::eq_…`,
+    `clone_…`, `drop_…` functions live in the same table): none of them is taken for a test. -/
 theorem discovery_exact (X : XID) (F : XIDFacts X) (mods : List Mod)
     (hid : ∀ m ∈ mods, ∀ d ∈ m.decls, isIdent X d.name = true)
     (glue : List Name) (hglue : ∀ k ∈ glue, '#' ∉ k)
@@ -445,7 +449,8 @@ theorem discovery_exact (X : XID) (F : XIDFacts X) (mods : List Mod)
     whose declared names are identifiers and whose function table holds its items under distinct
     keys (a hash map), in whatever order: `get_tests` does not panic and returns one handle per
     test block of every module, at every depth — the handles' keys are the sorted list of the
-    blocks' keys, and each handle is the table's entry of its key (so it runs that block). -/
+    blocks' keys, and each handle is the table's entry of its key (so it runs that block).
+    The table is the package's items plus any `glue` entries without `#` in their keys. -/
 theorem discovery_runs (X : XID) (F : XIDFacts X) (mods : List Mod)
     (hid : ∀ m ∈ mods, ∀ d ∈ m.decls, isIdent X d.name = true)
     (glue : Table) (hglue : ∀ e ∈ glue, '#' ∉ e.1)
@@ -482,7 +487,8 @@ theorem discovery_runs (X : XID) (F : XIDFacts X) (mods : List Mod)
 /-- The first sentence of the property, end to end over the GENERATED `run_tests`: on such a
     package, `run_tests` runs every test block of every module exactly once, in the sorted order
     of the blocks' keys (a function of the names only), and returns `Ok` iff every block's
-    declared verdict is accept. -/
+    declared verdict is accept — whatever compiler-generated `glue` entries (keys without `#`) share
+    the table with the package's items: none of them runs. -/
 theorem run_package_truthful {ε} (X : XID) (F : XIDFacts X) (mods : List Mod)
     (hid : ∀ m ∈ mods, ∀ d ∈ m.decls, isIdent X d.name = true)
     (glue : Table) (hglue : ∀ e ∈ glue, '#' ∉ e.1)
@@ -555,6 +561,23 @@ example :
     run_tests (ε := Unit) true module () []
       = (.ok (.Err ()), [.ranTest (pkgDot ++ ['m', '.', 't', 'e', 's', 't', '#', 'a']),
                           .ranTest (pkgDot ++ ['m', '.', 'u', '.', 's', '.', 't', 'e', 's', 't', '#', 'a']),
+                          .ranTest (pkgDot ++ ['t', 'e', 's', 't', '#', 'a'])]) := by
+  decide
+
+/-- non-vacuity with compiler-generated functions in the table (`glue`: keys as the code generator
+    names them — `::generated::eq_14`, `::generated::drop_14`, no `pkg.` in front, no `#`): the
+    hypotheses of `discovery_runs` / `run_package_truthful` hold, the same two blocks run in the
+    same order, and the glue neither runs nor makes `get_tests` panic on its `strip_prefix`. -/
+example :
+    let a : Name := ['a']
+    let eq14 : Name := [':', ':', 'g', 'e', 'n', 'e', 'r', 'a', 't', 'e', 'd', ':', ':', 'e', 'q', '_', '1', '4']
+    let drop14 : Name := [':', ':', 'g', 'e', 'n', 'e', 'r', 'a', 't', 'e', 'd', ':', ':', 'd', 'r', 'o', 'p', '_', '1', '4']
+    let glue : Table := [(eq14, ⟨⟨[.other 1, .other 1], .other 0⟩, .Accept ()⟩), (drop14, ⟨⟨[.other 1], .unit⟩, .Accept ()⟩)]
+    let mods : List Mod := [⟨[], [.test a (.Accept ())]⟩, ⟨[['m']], [.test a (.Reject ())]⟩]
+    let module : Module := ⟨glue ++ (packageTable test_fn_name_mir test_sig_mir mods).reverse⟩
+    (∀ e ∈ glue, '#' ∉ e.1) ∧ (Table.keys module.functions).Nodup ∧
+    run_tests (ε := Unit) true module () []
+      = (.ok (.Err ()), [.ranTest (pkgDot ++ ['m', '.', 't', 'e', 's', 't', '#', 'a']),
                           .ranTest (pkgDot ++ ['t', 'e', 's', 't', '#', 'a'])]) := by
   decide
 
